@@ -73,6 +73,10 @@ CLAIMED = {
           "Seeded programs of enter / exit / record / emit over four span call sites with overlapping field names, Empty fields and values of every visited type run on 1-3 simulated threads sharing one Registry+MetricsLayer dispatch and one TracingContextLayer (include-all, allow-list, or a custom filter); a per-thread model of the span stack (own fields, parent's labels at creation not overwriting, record() overwriting on that span only) predicts the labels of every emitted key: filtered span labels overwritten by the metric's own, no label name twice, key unchanged without span fields, independent of other threads.",
           "Interleavings inside sharded-slab and the label object pool are not subdivided (schedule sampled at harness-operation granularity); four fixed span call sites.",
           "DESIGN.md 4/C17"),
+  "C18": ("seeded simulation with fault injection over a simulated listener/stream seam: the real accept loop, allowlist check and hyper connection on a tokio current-thread runtime, with scripted peers of arbitrary source address",
+          "Seeded allowlists built through the builder from entries in both documented syntaxes (plain address, CIDR; nested, overlapping, v4/v6, or none) and seeded groups of 1-6 concurrent connections: well-formed GETs on six paths from peers inside, outside and on the first/last address of the listed networks and their neighbours, pipelined requests, garbage, truncated heads, half-open and reset connections, seed-chunked writes, seeded short reads/writes/EINTR/resets; an independent CIDR model decides allowed(peer); allowed: /health -> 200 OK, other paths -> 200 with a body that parses strictly and shows the counter inside its window; not allowed: 403, empty body and never a byte of metric data; after everything a well-formed request from an allowed peer is answered. The plain-address rejection was found and repaired.",
+          "Runs on tokio's own current-thread scheduler, not under dsim: spawn_blocking completion is a scheduler the harness does not own, so verdicts are per connection and timing-independent but the trace is not replay-exact (plan, peers, chunking and injected faults are); answers are awaited for at most 5 s per connection.",
+          "DESIGN.md 4/C18"),
 }
 
 NOT_APPLICABLE = {
